@@ -126,6 +126,20 @@ def run_mission_impl(case):
                     # lies next to the source file of the protocol class: the file that was named is the one in the
                     # working directory
                     path = _staged_relative()
+                named = path
+                if case.get("file_link") and not case.get("file_rel"):
+                    # named through a symbolic link to a directory followed by "..": the operating system resolves the link
+                    # first ("current/.." is the parent of the link's TARGET), while a file of the same name with another
+                    # mission lies where the path would lead if ".." were cancelled textually
+                    root = _MISSION_DIR[0]
+                    os.makedirs(os.path.join(root, "deploy", "v2", "cfg"), exist_ok=True)
+                    link = os.path.join(root, "current")
+                    if not os.path.islink(link):
+                        os.symlink(os.path.join(root, "deploy", "v2", "cfg"), link)
+                    with open(os.path.join(root, "mission.txt"), "w") as f:
+                        f.write("999.0,999.0,999.0\n")
+                    path = os.path.join(root, "deploy", "v2", "mission.txt")
+                    named = os.path.join(link, "..", "mission.txt")
                 with open(path, "w") as f:
                     fmt = {"e": "%.17e,%.17e,%.17e\n", "sp": " %r , %r ,%r \n", "plus": "%+.17g,%+.17g,%+.17g\n"}.get(case.get("file_fmt"), "%r,%r,%r\n")
                     for q in op[1]:
@@ -138,7 +152,7 @@ def run_mission_impl(case):
                     finally:
                         os.chdir(here)
                 else:
-                    plugin.start_mission_with_waypoint_file(path)
+                    plugin.start_mission_with_waypoint_file(named)
             elif op[0] == "start":
                 plugin.start_mission([tuple(p) for p in op[1]])
             elif op[0] == "stop":
